@@ -231,16 +231,16 @@ Example C18_class_tie_examples :
   (* a new goroutine *)
   List.length (graph_problems [] [spawn "connection.reader" "connection.reader$2"] [] []) = 1 /\
   (* a site in a function nobody is known to call *)
-  List.length (graph_problems [] [] [] [site "connection.helper" "connection" "key" false] []) = 1 /\
+  List.length (graph_problems [] [] [site "connection.helper" "connection" "key" false] []) = 1 /\
   (* the timer closure reading the writer's record map *)
-  List.length (graph_problems [] [] [] [] [{| c_fun := nm "connection.onActiveEvent$1"; c_kind := CKRef;
+  List.length (graph_problems [] [] [] [{| c_fun := nm "connection.onActiveEvent$1"; c_kind := CKRef;
                                         c_type := nm "map[uint16]*ActiveMessage"; c_write := false; c_imm := true |}]) = 1 /\
   (* ... while a value fixed before the closure exists, a channel whatever its name, the receiver are fine *)
   graph_problems [] [] [] [{| c_fun := nm "connection.onActiveEvent$1"; c_kind := CKBasic; c_type := nm "time.Duration"; c_write := false; c_imm := true |};
                         {| c_fun := nm "sessionManager.leave$1"; c_kind := CKChan; c_type := nm "chanstruct{}"; c_write := false; c_imm := true |};
                         {| c_fun := nm "connection.onActiveEvent$1"; c_kind := CKRef; c_type := nm "*connection"; c_write := false; c_imm := true |}] = [] /\
   (* the join closure keeping the first message instead of its own header copy *)
-  List.length (graph_problems [] [] [] [] [{| c_fun := nm "sessionManager.join$1"; c_kind := CKRef; c_type := nm "*Message"; c_write := false; c_imm := true |}]) = 1 /\
+  List.length (graph_problems [] [] [] [{| c_fun := nm "sessionManager.join$1"; c_kind := CKRef; c_type := nm "*Message"; c_write := false; c_imm := true |}]) = 1 /\
   (* stop() handing a method value to sync.Once.Do, which hands the closes on to another new method: call edges *)
   graph_problems [] [call "connection.reader" "connection.stop"; call "connection.stop" "connection.shutdown";
                      call "connection.shutdown" "connection.closeInboundChans"]
@@ -256,7 +256,7 @@ Example C18_class_tie_examples :
   (* a renamed field: sessionManager.operationFuncChan -> opChan (the one field of that struct and type the model misses) *)
   graph_problems [{| d_struct := nm "sessionManager"; d_field := nm "opChan"; d_type := nm "chansessionOperationFunc" |};
                   {| d_struct := nm "sessionManager"; d_field := nm "keyFunc"; d_type := nm "func/1/2" |}]
-                 [] [site "newSessionManager" "sessionManager" "opChan" true] [] = [] /\
+                 [call "New" "newSessionManager"] [site "newSessionManager" "sessionManager" "opChan" true] [] = [] /\
   (* ... but not when two fields of one type are unknown at once *)
   List.length (graph_problems [{| d_struct := nm "connection"; d_field := nm "inbox"; d_type := nm "chan*Message" |};
                                {| d_struct := nm "connection"; d_field := nm "redo"; d_type := nm "chan*Message" |};
